@@ -170,10 +170,9 @@ func (stats GetMessagesStats) NickWithFallback() string {
 	if stats.Nick != "" {
 		return stats.Nick
 	}
-	if session, err := stats.api.ircServer().GetSession(stats.Session); err == nil {
-		return session.Nick
-	}
-	return ""
+	// GetNick reads the nickname while holding the session lock (reading
+	// session.Nick through the pointer GetSession returns does not).
+	return stats.api.ircServer().GetNick(stats.Session)
 }
 
 // StartedAndRelative converts |stats.Started| into a human-readable formatted
